@@ -11,14 +11,16 @@ import (
 func init() {
 	Register(&Rule{ID: "CLEANSKIP", Props: []string{"C13"}, Min: 3,
 		Doc: "in the node store, for a clean node with a known name (¬dirty ∧ source≠nil) neither the encoder call, nor the queue send, nor the recursion into children is reachable: " +
-			"persisting an unmodified tree marshals and writes nothing.",
+			"persisting an unmodified tree marshals and writes nothing. The events are looked for in the node store and in every same-package function it calls, transitively: " +
+			"an event inside a callee is unreachable for the clean node iff the call site is unreachable under the valuation of the node in the caller, or the callee is handed that very node " +
+			"and the event is unreachable under the valuation of the receiving parameter; a callee that is not handed the node is reachable throughout.",
 		Run: runCLEANSKIP})
 }
 
 // persistingStoreFn returns the persisting node store (outer function of the
 // Persist.Store site) and its receiver.
 func persistingStoreFn(c *Ctx) (*ssa.Function, *ssa.Parameter) {
-	sites := storeSites(c)
+	sites := writerStoreSites(c)
 	if len(sites) == 0 {
 		c.AnchorMissing("Persist.Store call site")
 		return nil, nil
@@ -33,45 +35,87 @@ func persistingStoreFn(c *Ctx) (*ssa.Function, *ssa.Parameter) {
 
 func runCLEANSKIP(c *Ctx) {
 	P := c.P
-	fn, recv := persistingStoreFn(c)
-	if fn == nil {
+	root, recv := persistingStoreFn(c)
+	if root == nil {
 		return
 	}
 	A := c.Facts.Own()
 	n := 0
-	for _, b := range fn.Blocks {
-		for _, ins := range b.Instrs {
-			what := ""
-			switch x := ins.(type) {
-			case *ssa.Send:
-				what = "queue send"
-			case *ssa.Call:
-				ext := c.Facts.External(x)
-				if strings.HasPrefix(ext, "callback:") {
-					what = "encoder call (" + strings.TrimPrefix(ext, "callback:") + ")"
-				}
-				for _, callee := range c.Facts.Callees(x) {
-					if callee == fn {
-						what = "recursion into a child"
-					}
-				}
-				if ext == "NodeCache.Contains" || ext == "Persist.NodeURLPrefix" {
-					what = ext
-				}
-			}
-			if what == "" {
+	type vk struct {
+		fn   *ssa.Function
+		q    *ssa.Parameter
+		dead bool
+	}
+	seen := map[vk]bool{}
+	// visit examines function g on behalf of the clean node: q is the parameter of g that holds it (nil: g is not
+	// handed the node, so nothing in g is known about it); skipped: g is only entered here through a call site that
+	// is itself unreachable for the clean node (its events are counted, and discharged).
+	var visit func(g *ssa.Function, q *ssa.Parameter, skipped bool, via string, depth int)
+	visit = func(g *ssa.Function, q *ssa.Parameter, skipped bool, via string, depth int) {
+		k := vk{g, q, skipped}
+		if seen[k] {
+			return
+		}
+		seen[k] = true
+		for _, b := range g.Blocks {
+			if ir.IsDead(b) {
 				continue
 			}
-			n++
-			if A.UnreachableUnderShared(fn, recv, b) {
-				c.OK(P.InstrPos(ins), what+" in "+ir.FuncName(fn), "unreachable when the node is clean and has a source name", false)
-			} else {
-				c.Violation(fn, P.InstrPos(ins), what+" reachable for a clean node",
-					"a node that is not dirty and already has a name is still encoded / sent / descended into: MakeRoot on an unmodified tree re-marshals and rewrites nodes (and loads nothing only by luck)")
+			unreachable := skipped || (q != nil && A.UnreachableUnderShared(g, q, b))
+			for _, ins := range b.Instrs {
+				what := ""
+				var next []*ssa.Function
+				switch x := ins.(type) {
+				case *ssa.Send:
+					what = "queue send"
+				case ssa.CallInstruction:
+					ext := c.Facts.External(x)
+					if strings.HasPrefix(ext, "callback:") {
+						what = "encoder call (" + strings.TrimPrefix(ext, "callback:") + ")"
+					}
+					if _, isCall := ins.(*ssa.Call); !isCall && what != "" {
+						what = "deferred/spawned " + what
+					}
+					for _, callee := range c.Facts.Callees(x) {
+						if callee == root {
+							what = "recursion into a child"
+						} else if !x.Common().IsInvoke() && ir.Callee(x.Common()) == callee {
+							next = append(next, callee)
+						}
+					}
+					if ext == "NodeCache.Contains" || ext == "Persist.NodeURLPrefix" {
+						what = ext
+					}
+				}
+				if what != "" {
+					n++
+					switch {
+					case skipped:
+						c.OK(P.InstrPos(ins), what+" in "+ir.FuncName(g), "in a helper of the node store that is entered only "+via+", which is unreachable when the node is clean and has a source name", false)
+					case unreachable:
+						c.OK(P.InstrPos(ins), what+" in "+ir.FuncName(g), "unreachable when the node is clean and has a source name", false)
+					default:
+						c.Violation(g, P.InstrPos(ins), what+" reachable for a clean node",
+							"a node that is not dirty and already has a name is still encoded / sent / descended into: MakeRoot on an unmodified tree re-marshals and rewrites nodes (and loads nothing only by luck)")
+					}
+				}
+				for _, h := range next {
+					ci := ins.(ssa.CallInstruction)
+					if depth >= 6 {
+						c.Undecided(g, P.InstrPos(ins), "helper chain of the node store too deep", "the helpers of the node store nest deeper than the rule follows")
+						continue
+					}
+					var hq *ssa.Parameter
+					if q != nil {
+						_, hq = helperParamFor(ci, q)
+					}
+					visit(h, hq, unreachable, "through the call at "+P.InstrPos(ins)+" in "+ir.FuncName(g), depth+1)
+				}
 			}
 		}
 	}
+	visit(root, recv, false, "", 0)
 	if n < 3 {
-		c.Undecided(fn, P.Pos(fn.Pos()), "encoder/send/recursion not found", "the node store no longer has the expected encoder call, queue send and recursion")
+		c.Undecided(root, P.Pos(root.Pos()), "encoder/send/recursion not found", "the node store no longer has the expected encoder call, queue send and recursion")
 	}
 }
